@@ -5,3 +5,4 @@ import rules_err     # noqa  C04
 import rules_panic   # noqa  C18
 import rules_run     # noqa  C17
 import rules_text    # noqa  C12 C13 C16
+import rules_dir     # noqa  C01 C11 C14 C15
